@@ -159,6 +159,10 @@ def instances(tier):
             for rs_list in (True, False):
                 for ph in ("none", "unlisted") if rs_list else ("none",):
                     out.append(Instance("C01", "c01:u_mux", dict(k=k, form="const", phase=ph, rs_list=rs_list, offs=offs)))
+    # tabulated mux ground current: the lookup must use the SELECTED input's voltage (2-D / opaque tables depend on it)
+    for form in ("t1x2", "ct2x2x2", "opaque"):
+        for offs in ("00", "10"):
+            out.append(Instance("C01", "c01:u_mux", dict(k=2, form=form, phase="none", rs_list=True, offs=offs), weight=5))
     from ..shapes import curated, pair_cover
     for sid, shape in curated().items():
         out.append(Instance("C01", "sys_common:s_run", dict(shape=shape, oracle="c01"), name="S/" + sid, uf=True,
